@@ -45,8 +45,43 @@ Definition m_attach (w : wnode) (r : vref) (k : core) : core :=
 Definition m_child_nodes (r : vref) (n : node) (d : nat) : list wnode := map WNode (children_of c h (n_oid n) d (r_vid r)).
 Definition m_add_children (ch : list wnode) (_ : nat) (new : list wnode) : list wnode := ch ++ new.
 
+(* process_variable as translated, on the model's cache (object ids in recording order: the id of the i-th is i+1), table
+   and heap; the ghost log records (id, depth) of every NEW variable *)
+Definition m_mk_ref (v : nat) (name : str) (_ : unit) (orig : option str) : vref := {| r_vid := v; r_name := name; r_orig := orig |}.
+Definition m_mk_variable (ty val : str) (oid : nat) (tr : bool) : var :=
+  {| v_ty := ty; v_val := val; v_trunc := tr; v_oid := oid; v_children := [] |}.
+Definition code_process (n : node) (k : core) : (vref * bool) * core :=
+  let '((c', t'), (r, b)) :=
+    gen_process_variable n_name n_orig n_oid (fun o => o) (fun o => o_ty (hget h o)) (fun t => t) (fun _ o => otext (hget h o))
+      (fun _ => tt) lookup_cache (fun cs o => (S (length cs), cs ++ [o])) m_mk_ref m_mk_variable
+      (fun tb v x => tb ++ [(v, x)]) (Z.of_nat (max_str c)) (k_cache k) (k_table k) n in
+  ((r, b), {| k_cache := c'; k_table := t'; k_roots := k_roots k;
+              k_log := if b then k_log k ++ [(r_vid r, n_depth n)] else k_log k |}).
+
+Lemma tie_process n k : code_process n k = m_process n k.
+Proof.
+  unfold code_process, gen_process_variable, m_process.
+  destruct (lookup_cache (k_cache k) (n_oid n)) as [v|].
+  - destruct k; reflexivity.
+  - rewrite tie_truncate_string. reflexivity.
+Qed.
+
+(* identity first: an object already recorded keeps its id - no new entry, no children again ... *)
+Lemma code_process_known n k v :
+  lookup_cache (k_cache k) (n_oid n) = Some v -> code_process n k = ((m_ref n v, false), k).
+Proof. intros L. rewrite tie_process. unfold m_process. rewrite L. reflexivity. Qed.
+
+(* ... and an object seen for the first time gets the NEXT id (ids are 1, 2, 3, ... in recording order), exactly one new
+   table entry that carries its identity, and its children are processed *)
+Lemma code_process_new n k :
+  lookup_cache (k_cache k) (n_oid n) = None ->
+  let '((r, b), k') := code_process n k in
+  r = m_ref n (S (length (k_cache k))) /\ b = true /\ k_cache k' = k_cache k ++ [n_oid n] /\
+  k_table k' = k_table k ++ [(S (length (k_cache k)), record_var c h (n_oid n))] /\ k_roots k' = k_roots k.
+Proof. intros L. rewrite tie_process. unfold m_process. rewrite L. cbn. repeat split. Qed.
+
 Definition code_consumer : wnode -> list wnode -> core -> (list wnode * core) * bool :=
-  gen_search_function m_budget_ok w_value w_depth m_process m_attach m_child_nodes m_add_children.
+  gen_search_function m_budget_ok w_value w_depth code_process m_attach m_child_nodes m_add_children.
 Definition code_iter : list wnode -> core -> wl_result wnode core := gen_bfs_iter code_consumer w_children.
 (* VariableSetProcessor.process_variable: breadth_first_search(Node(None, [Node(NodeValue(name, value))]), search_function) *)
 Definition code_traverse (fuel : nat) (root : node) (k : core) : core * bool :=
@@ -72,7 +107,7 @@ Proof.
     rewrite budget_ok_model. unfold step. cbn [stopped mk_st queue pop cache table roots log].
     destruct (max_vars c <? length (k_cache k)) eqn:B; cbn [negb].
     + reflexivity.
-    + unfold m_process. destruct (lookup_cache (k_cache k) (n_oid n)) as [v|] eqn:L; cbn [fst snd].
+    + rewrite tie_process. unfold m_process. destruct (lookup_cache (k_cache k) (n_oid n)) as [v|] eqn:L; cbn [fst snd].
       * unfold m_attach. fold (m_ref n v).
         destruct (attach (k_table k) (k_roots k) (n_par n) (m_ref n v)) as [t rs] eqn:A.
         exists r. rewrite app_nil_r. split; reflexivity.
